@@ -35,7 +35,8 @@ enum Col {
     Bool,
     DictStr,
     Fsb,
-    ListInt,
+    /// `true`: the domain contains the empty list, whose hash collides with NULL's
+    ListInt(bool),
 }
 
 const INTS: [i64; 6] = [0, 1, 2, 7, 100, 127];
@@ -51,7 +52,7 @@ impl Col {
             Col::Bool => DataType::Boolean,
             Col::DictStr => DataType::Dictionary(Box::new(DataType::Int32), Box::new(DataType::Utf8)),
             Col::Fsb => DataType::FixedSizeBinary(3),
-            Col::ListInt => DataType::List(Arc::new(Field::new_list_field(DataType::Int32, true))),
+            Col::ListInt(_) => DataType::List(Arc::new(Field::new_list_field(DataType::Int32, true))),
         }
     }
     fn domain(&self) -> usize {
@@ -61,7 +62,7 @@ impl Col {
             Col::Str(_) | Col::Bin(_) | Col::DictStr => STRS.len(),
             Col::Bool => 2,
             Col::Fsb => FSBS.len(),
-            Col::ListInt => 5,
+            Col::ListInt(_) => 5,
         }
     }
     /// array for the given cells: (code, variant); variant selects an equivalent representation
@@ -105,8 +106,8 @@ impl Col {
                 }
             }
             Col::Fsb => Arc::new(FixedSizeBinaryArray::try_from_sparse_iter_with_size(cells.iter().map(|c| c.map(|(k, _)| FSBS[k].to_vec())), 3).unwrap()),
-            Col::ListInt => {
-                let dom: [Vec<Option<i32>>; 5] = [vec![], vec![Some(1)], vec![Some(1), Some(2)], vec![None], vec![Some(2), Some(1)]];
+            Col::ListInt(with_empty) => {
+                let dom: [Vec<Option<i32>>; 5] = [if *with_empty { vec![] } else { vec![Some(7)] }, vec![Some(1)], vec![Some(1), Some(2)], vec![None], vec![Some(2), Some(1)]];
                 let mut b = ListBuilder::new(Int32Builder::new());
                 for c in cells {
                     match c {
@@ -180,13 +181,17 @@ fn schemas() -> Vec<SchemaCase> {
         // GroupValuesColumn
         SchemaCase { name: "dict_utf8", kind: "spec", cols: vec![Col::DictStr] },
         SchemaCase { name: "fsb3", kind: "spec", cols: vec![Col::Fsb] },
-        SchemaCase { name: "list_int32(row-backed)", kind: "spec", cols: vec![Col::ListInt] },
+        SchemaCase { name: "list_int32(row-backed)", kind: "spec", cols: vec![Col::ListInt(false)] },
+        // NULL and the empty list hash alike: the colliding key is interned by `scalarized_intern_remaining`,
+        // after the batch's other new keys (ids are still dense, but not in first-seen order)
+        SchemaCase { name: "list_int32(null/empty hash collision)", kind: "unordered", cols: vec![Col::ListInt(true)] },
+        SchemaCase { name: "int32+bool+fsb3", kind: "spec", cols: vec![Col::FromInt(Int32), Col::Bool, Col::Fsb] },
         SchemaCase { name: "int32+utf8", kind: "spec", cols: vec![Col::FromInt(Int32), Col::Str(Utf8)] },
         SchemaCase { name: "utf8view+int64+bool", kind: "spec", cols: vec![Col::Str(Utf8View), Col::FromInt(Int64), Col::Bool] },
         SchemaCase { name: "dict+int32", kind: "spec", cols: vec![Col::DictStr, Col::FromInt(Int32)] },
         SchemaCase { name: "fsb3+float64", kind: "spec", cols: vec![Col::Fsb, Col::F64] },
         SchemaCase { name: "dec128+large_utf8", kind: "spec", cols: vec![Col::FromInt(Decimal128(20, 2)), Col::Str(LargeUtf8)] },
-        SchemaCase { name: "binaryview+list(row-backed)+uint8", kind: "spec", cols: vec![Col::Bin(BinaryView), Col::ListInt, Col::FromInt(UInt8)] },
+        SchemaCase { name: "binaryview+list(row-backed)+uint8", kind: "spec", cols: vec![Col::Bin(BinaryView), Col::ListInt(false), Col::FromInt(UInt8)] },
         SchemaCase { name: "float32+date32", kind: "spec", cols: vec![Col::F32, Col::FromInt(Date32)] },
         // GroupValuesRows fallback (Decimal64 has no GroupColumn)
         SchemaCase { name: "dec64+int32(rows)", kind: "rows", cols: vec![Col::FromInt(Decimal64(10, 2)), Col::FromInt(Int32)] },
@@ -255,12 +260,20 @@ fn one_history(run: &mut Run, rng: &mut Rng, sc: &SchemaCase, h: u64) {
     let mut live: Vec<Key> = vec![]; // the oracle's view: key of every live id, built from impl answers only
     let mut fails: Vec<(String, String)> = vec![];
     let mut unflushed_clear = false;
+    // GroupValuesColumn: an emit(All) of a non-empty store not (yet) followed by clear_shrink
+    let mut stale_emit_all = false;
+    // builders that use `get_unchecked` abort the process (UB check) when driven with the stale table
+    let abort_prone = sc.kind != "prim" && sc.kind != "bytes" && sc.kind != "bool" && sc.cols.len() > 1 && sc.cols.iter().any(|c| matches!(c, Col::Str(_) | Col::Bin(_)));
+    let mut force_clear = false;
     let mut kinds = std::collections::BTreeSet::new();
     let mut interned_once = false;
     for step in 0..len {
         let cur_len = gv.len();
         let c = rng.below(100);
-        let op = if c < 55 || step == 0 && c < 90 {
+        let op = if force_clear {
+            force_clear = false;
+            HOp::Clear
+        } else if c < 55 || step == 0 && c < 90 {
             let rows = *rng.pick(&[0usize, 1, 2, 3, 5, 8, 12]);
             HOp::Intern(
                 (0..rows)
@@ -286,9 +299,10 @@ fn one_history(run: &mut Run, rng: &mut Rng, sc: &SchemaCase, h: u64) {
         } else {
             HOp::Clear
         };
+        let stale_now = stale_emit_all;
         let fail = |fails: &mut Vec<(String, String)>, what: &str, detail: String, unflushed: bool| {
             if fails.is_empty() {
-                fails.push((format!("{what} kind={} after-unflushed-clear={unflushed}", sc.kind), detail));
+                fails.push((format!("{what} kind={} after-unflushed-clear={unflushed} after-emit-all-no-clear={stale_now}", sc.kind), detail));
             }
         };
         match op {
@@ -338,23 +352,47 @@ fn one_history(run: &mut Run, rng: &mut Rng, sc: &SchemaCase, h: u64) {
                 if groups.len() != nrows {
                     fail(&mut fails, "ids-length", format!("{} ids for {nrows} rows", groups.len()), unflushed_clear);
                 }
+                // existing keys keep their id; the batch's new keys get exactly the ids
+                // before..before+k, one each (first-seen order unless hashes collide)
                 let before = live.len();
+                let mut newly: std::collections::BTreeMap<usize, Key> = std::collections::BTreeMap::new();
+                let mut in_order = true;
                 for (k, g) in keys.iter().zip(groups.iter()) {
-                    if *g < live.len() {
-                        if &live[*g] != k {
-                            let what = if live.contains(k) { "equal-keys-different-ids" } else { "new-key-got-existing-id" };
-                            fail(&mut fails, what, format!("step {step}: key ({}) got id {g} which is the id of ({})", key_txt(k), key_txt(&live[*g])), unflushed_clear);
+                    if let Some(pos) = live.iter().position(|x| x == k) {
+                        if pos != *g {
+                            fail(&mut fails, "equal-keys-different-ids", format!("step {step}: key ({}) has id {pos} but got id {g}", key_txt(k)), unflushed_clear);
                         } else {
                             kinds.insert("existing-key");
                         }
-                    } else if *g == live.len() {
-                        if live.contains(k) {
-                            fail(&mut fails, "equal-keys-different-ids", format!("step {step}: key ({}) already has id {} but got new id {g}", key_txt(k), live.iter().position(|x| x == k).unwrap()), unflushed_clear);
-                        }
-                        live.push(k.clone());
-                        kinds.insert(if before > 0 { "new-key-after-existing" } else { "new-key" });
+                    } else if *g < before {
+                        fail(&mut fails, "new-key-got-existing-id", format!("step {step}: key ({}) got id {g} which is the id of ({})", key_txt(k), key_txt(&live[*g])), unflushed_clear);
                     } else {
-                        fail(&mut fails, "id-not-dense", format!("step {step}: key ({}) got id {g} while only {} groups exist", key_txt(k), live.len()), unflushed_clear);
+                        match newly.get(g) {
+                            Some(k2) if k2 != k => fail(&mut fails, "distinct-keys-same-id", format!("step {step}: keys ({}) and ({}) both got id {g}", key_txt(k), key_txt(k2)), unflushed_clear),
+                            Some(_) => {}
+                            None => {
+                                if let Some((g2, _)) = newly.iter().find(|(_, k2)| *k2 == k) {
+                                    fail(&mut fails, "equal-keys-different-ids", format!("step {step}: key ({}) got ids {g2} and {g}", key_txt(k)), unflushed_clear);
+                                }
+                                if *g != before + newly.len() {
+                                    in_order = false;
+                                }
+                                newly.insert(*g, k.clone());
+                            }
+                        }
+                    }
+                }
+                for (i, (g, k)) in newly.iter().enumerate() {
+                    if *g != before + i {
+                        fail(&mut fails, "id-not-dense", format!("step {step}: new keys got ids {:?} while {before} groups existed", newly.keys().collect::<Vec<_>>()), unflushed_clear);
+                        break;
+                    }
+                    live.push(k.clone());
+                }
+                if !newly.is_empty() {
+                    kinds.insert(if before > 0 { "new-key-after-existing" } else { "new-key" });
+                    if !in_order {
+                        kinds.insert("new-keys-not-in-first-seen-order(hash collision)");
                     }
                 }
                 ans.push(format!("ids:{}|{}", groups.iter().map(|g| g.to_string()).collect::<Vec<_>>().join(","), gv.len()));
@@ -363,6 +401,13 @@ fn one_history(run: &mut Run, rng: &mut Rng, sc: &SchemaCase, h: u64) {
                 let (emit_to, n) = match op {
                     HOp::EmitAll => {
                         req.push_str(" (ea)");
+                        if cur_len > 0 && (sc.kind == "spec" || sc.kind == "unordered") {
+                            if abort_prone {
+                                force_clear = true; // the engine's pattern: emit(All) then clear_shrink
+                            } else {
+                                stale_emit_all = true;
+                            }
+                        }
                         (EmitTo::All, cur_len)
                     }
                     HOp::EmitFirst(n) => {
@@ -423,6 +468,7 @@ fn one_history(run: &mut Run, rng: &mut Rng, sc: &SchemaCase, h: u64) {
             }
             HOp::Clear => {
                 req.push_str(" (c)");
+                stale_emit_all = false;
                 if cur_len > 0 {
                     unflushed_clear = true;
                     kinds.insert("clear-nonempty");
@@ -457,7 +503,9 @@ fn one_history(run: &mut Run, rng: &mut Rng, sc: &SchemaCase, h: u64) {
 }
 
 pub fn run(run: &mut Run, args: &Args) {
-    hutil::quiet_panics();
+    if std::env::var("VERIF_LOUD").is_err() {
+        hutil::quiet_panics();
+    }
     let mut rng = Rng::new(args.seed);
     let scs = schemas();
     let per_schema = run.budget(60, 2500);
